@@ -14,7 +14,9 @@ Hdr == Traces[tid][1]
 StateMatches(e, st, evm) ==
   /\ e.obs = st.obs /\ e.t = st.t /\ e.acc = st.acc
   /\ e.reward = st.reward /\ e.done = st.done
-  /\ e.steps = st.steps /\ e.trunc = st.trunc
+  /\ e.blow = 0            \* whatever the terminal state contained (even +inf), the state after a step is a live one
+  \* without an EpisodeWrapper there is no step counter to compare (header noep = 1; then L is effectively infinite)
+  /\ (Hdr.noep = 0) => (e.steps = st.steps /\ e.trunc = st.trunc)
   /\ e.fobs = st.fobs /\ e.ft = st.ft
   /\ (Hdr.eval = 1) => (e.esum = evm.esum /\ e.active = evm.active /\ e.epsteps = evm.epsteps)
 
